@@ -1,7 +1,8 @@
 ---------------------------- MODULE BarExtTrace ----------------------------
 (* Observations of the real format_time / ProgressBar against BarExt.  One event per trace, by kind:
      "time"    [t, text]                                          format_time(t / 1024) as characters ("None" for None)
-     "place"   [e, step, max, spec, exc, elapsed, remaining, estimated, percent]   the placeholder texts of one frame
+     "place"   [e, step, max, spec, exc, elapsed, remaining, estimated, percent, unknown1, unknown2, getter]
+               the placeholder texts of one frame, two placeholders nobody defined, get_progress_percent() as num/den
      "redraw"  [f, mingap, max, run, drew]                        which advance() calls of a run wrote a frame
      "multi"   [msg, max, calls, ops]                             what every draw / clear put on the stream
    Extension: every clause is an A-clause (Note -> DRIFT).                                                          *)
@@ -24,6 +25,8 @@ TPlace == /\ Adv /\ E.kind = "place"
              /\ Note(tid, l, "A.ext.place.remaining", E.exc # "" \/ E.remaining = m.remaining)
              /\ Note(tid, l, "A.ext.place.estimated", E.exc # "" \/ E.estimated = m.estimated)
              /\ Note(tid, l, "A.ext.place.percent", E.exc # "" \/ E.percent = m.percent)
+             /\ Note(tid, l, "A.ext.place.unknown", E.exc # "" \/ (E.unknown1 = Unknown1 /\ E.unknown2 = Unknown2))
+             /\ Note(tid, l, "A.ext.place.getter", E.exc # "" \/ GetterOK(E.getter[1], E.getter[2], E.step, E.max))
 
 TRedraw == /\ Adv /\ E.kind = "redraw"
            /\ Note(tid, l, "A.ext.redraw", E.drew = DrawList(E.f, E.mingap, E.max, E.run))
